@@ -412,6 +412,14 @@ func (s *Store[K, V]) setShardWithoutLock(shard *Shard[K, V], hash uint64, key K
 		if old != expire {
 			result.reschedule = true
 		}
+	} else if ok && expire == 0 {
+		// the old value has expired already but is not reclaimed yet,
+		// this set is a fresh insert without ttl: drop the stale deadline.
+		old := exist.expire.Load()
+		if old != 0 && old <= s.timerwheel.clock.NowNano() {
+			exist.expire.Store(0)
+			result.reschedule = true
+		}
 	}
 
 	if ok {
@@ -583,7 +591,7 @@ func (s *Store[K, V]) tryRemoveEntry(entry *Entry[K, V], reason RemoveReason) bo
 	if reason == EXPIRED {
 		// entry might updated already
 		// update expire filed are protected by shard mutex
-		if entry.expire.Load() > s.timerwheel.clock.NowNano() {
+		if expire := entry.expire.Load(); expire == 0 || expire > s.timerwheel.clock.NowNano() {
 			s.timerwheel.schedule(entry)
 			return false
 		}
